@@ -330,7 +330,8 @@ def cases(tier, seed):
             out.append(mask_write_case(INT, shape, rng.choice(INT_OPS), rng.choice(['lit', 'sym']), isa))
             ty = ftype()
             for op in (ALL_OPS if T else sample(rng, ALL_OPS, 1 if prod(shape) in (4, 12) else 2)):
-                out.append(mask_write_case(ty, shape, op, rng.choice(['tensor', 'lit', 'neg', 'sum']), isa))
+                # 16 elements with two float operations each (B + B, then op) did not finish in 300 s under UF
+                out.append(mask_write_case(ty, shape, op, rng.choice(['tensor', 'lit', 'neg', 'sum'] if prod(shape) < 16 else ['tensor', 'lit']), isa))
     seen = set(); res = []
     for c in out:
         if c.cid not in seen: seen.add(c.cid); res.append(c)
